@@ -404,6 +404,16 @@ def m_ok_or_else2(I, st, callee, argv, depth, t, dty):
 @model('core::iter::traits::iterator::Iterator::fold')
 def m_fold(I, st, callee, argv, depth, t, dty):
     items = as_list(st, argv[0])
+    if items is None and is_steppable(st, argv[0]):
+        def go(s, it, acc):
+            for s2, nit, item in iter_step(I, s, it, depth, t):
+                if item is None:
+                    yield s2, acc
+                    continue
+                for s3, acc2 in I.apply_callable(s2, argv[2], [acc, item], depth, t):
+                    yield from go(s3, nit, acc2)
+        yield from go(st, deref_val(st, argv[0]), argv[1])
+        return
     if items is None:
         st.ev('LOOPSUM', 'fold over an opaque iterator', span(t))
         I.notes.append('opaque fold at ' + span(t))
@@ -421,6 +431,16 @@ def m_fold(I, st, callee, argv, depth, t, dty):
 @model('core::iter::traits::iterator::Iterator::for_each')
 def m_for_each(I, st, callee, argv, depth, t, dty):
     items = as_list(st, argv[0])
+    if items is None and is_steppable(st, argv[0]):
+        def go(s, it):
+            for s2, nit, item in iter_step(I, s, it, depth, t):
+                if item is None:
+                    yield s2, UNIT
+                    continue
+                for s3, _ in I.apply_callable(s2, argv[1], [item], depth, t):
+                    yield from go(s3, nit)
+        yield from go(st, deref_val(st, argv[0]))
+        return
     if items is None:
         st.ev('LOOPSUM', 'for_each over an opaque iterator', span(t))
         I.notes.append('opaque for_each at ' + span(t))
@@ -910,10 +930,287 @@ def m_next(I, st, callee, argv, depth, t, dty):
         st.ev('range-exhausted', k)
         yield st, NONE
         return
+    if it is not None and it[0] in ('lazy', 'repeat_with') and isref:
+        for s2, nit, item in iter_step(I, st, it, depth, t):
+            I.write_res(s2, ('cell', r[1], r[2]), nit)
+            yield s2, (Some(item) if item is not None else NONE)
+        return
     # opaque iterator: bounded unrolling
     st.ev('LOOPSUM', 'opaque-iter', span(t))
     I.notes.append('opaque iterator at ' + span(t))
     yield st, NONE
+
+
+# ---- lazy iterators ------------------------------------------------------------------------------------------------------------
+# Iterator values: ('list', items) | ('range', lo, hi, k) | ('lazy', base, op, f) with op in map/filter/filter_map/take_while |
+# ('repeat_with', f, k).  `iter_step` advances any of them by one element; adaptors are lazy (the closure runs when the element is
+# pulled, in pull order - the order of side effects such as RNG draws is the program's).  Ranges keep the symbolic two-iteration
+# unrolling of `for` loops (RangeItem(lo, hi, k), k = 0, 1, then LOOPSUM), and so does repeat_with.
+
+def iter_step(I, st, it, depth, t):
+    """yield (state, advanced iterator, item | None)"""
+    it = deref_val(st, it)
+    kind = it[0] if it is not None else None
+    if kind in ('list', 'array'):
+        items = it[1]
+        if not items:
+            yield st, ('list', ()), None
+        else:
+            yield st, ('list', tuple(items[1:])), freeze(st, items[0])
+        return
+    if kind == 'range':
+        k = it[3]
+        if k >= 2:
+            st.ev('LOOPSUM', 'range', span(t))
+            yield st, it, None
+            return
+        s2 = st.copy()
+        yield s2, ('range', it[1], it[2], k + 1), App('RangeItem', it[1], it[2], Int(k))
+        st.ev('range-exhausted', k)
+        yield st, it, None
+        return
+    if kind == 'zip':
+        # one pseudo-element standing for all pairs of (mutable byte view, byte view): the element-wise operation is applied to the whole views
+        if it[3]:
+            yield st, it, None
+            return
+        a = deref_val(st, it[1])
+        b = it[2]
+        la = lb = None
+        if a is not None and a[0] == 'bitermut':
+            la = I.len_of(st, a[1])
+        if b is not None and b[0] == 'biter':
+            lb = tlen(b[1])
+        st.ev('zipwith', la, Int(lb) if lb is not None else None, span(t))
+        yield st, ('zip', it[1], it[2], 1), ('tuple', (a, b))
+        return
+    if kind == 'repeat_with':
+        f, k = it[1], it[2]
+        if k >= 2:
+            st.ev('LOOPSUM', 'repeat_with', span(t))
+            I.notes.append('loop cap in repeat_with at ' + span(t))
+            return          # an infinite source: paths that need a third element are not explored (noted)
+        for s2, y in I.apply_callable(st, f, [], depth, t):
+            yield s2, ('repeat_with', f, k + 1), y
+        return
+    if kind == 'lazy':
+        base, op, f = it[1], it[2], it[3]
+        for s2, nb, item in iter_step(I, st, base, depth, t):
+            nit = ('lazy', nb, op, f)
+            if item is None:
+                yield s2, nit, None
+                continue
+            if op == 'map':
+                for s3, y in I.apply_callable(s2, f, [item], depth, t):
+                    yield s3, nit, y
+            elif op in ('filter', 'take_while'):
+                a = s2.alloc(item)
+                for s3, b in I.apply_callable(s2, f, [('ref', a, ())], depth, t):
+                    for s4, val in fork_bool(I, s3, b):
+                        if val:
+                            yield s4, nit, item
+                        elif op == 'take_while':
+                            yield s4, ('list', ()), None
+                        else:
+                            yield from iter_step(I, s4, nit, depth, t)
+            elif op == 'filter_map':
+                for s3, y in I.apply_callable(s2, f, [item], depth, t):
+                    for s4, name, payload in I.fork_result(s3, y, 'Some', 'None'):
+                        if name == 'Some':
+                            yield s4, nit, payload
+                        else:
+                            yield from iter_step(I, s4, nit, depth, t)
+        return
+    st.ev('LOOPSUM', 'opaque-iter', span(t))
+    I.notes.append('opaque iterator at ' + span(t))
+    yield st, it, None
+
+
+def is_steppable(st, v):
+    v = deref_val(st, v)
+    return v is not None and v[0] in ('list', 'array', 'range', 'lazy', 'repeat_with', 'zip')
+
+
+def _writeback(I, st, r, nit):
+    if r is not None and r[0] == 'ref':
+        I.write_res(st, ('cell', r[1], r[2]), nit)
+
+
+def _lazy(op):
+    def m(I, st, callee, argv, depth, t, dty):
+        base = deref_val(st, argv[0])
+        if is_steppable(st, base):
+            yield st, ('lazy', base, op, argv[1])
+        else:
+            yield st, App(op, freeze(st, base), freeze(st, argv[1]))
+    return m
+
+
+MODELS['core::iter::traits::iterator::Iterator::map'] = _lazy('map')
+MODELS['core::iter::traits::iterator::Iterator::filter'] = _lazy('filter')
+MODELS['core::iter::traits::iterator::Iterator::filter_map'] = _lazy('filter_map')
+MODELS['core::iter::traits::iterator::Iterator::take_while'] = _lazy('take_while')
+
+
+@model('core::iter::sources::repeat_with::repeat_with', 'core::iter::repeat_with', 'std::iter::repeat_with')
+def m_repeat_with(I, st, callee, argv, depth, t, dty):
+    yield st, ('repeat_with', argv[0], 0)
+
+
+@model('core::iter::traits::iterator::Iterator::find')
+def m_iter_find(I, st, callee, argv, depth, t, dty):
+    if not is_steppable(st, argv[0]):
+        st.ev('LOOPSUM', 'find over an opaque iterator', span(t))
+        I.notes.append('opaque iterator at ' + span(t))
+        yield st, App('find', freeze(st, argv[0]))
+        return
+    def go(s, it):
+        for s2, nit, item in iter_step(I, s, it, depth, t):
+            if item is None:
+                _writeback(I, s2, argv[0], nit)
+                yield s2, NONE
+                continue
+            a = s2.alloc(item)
+            for s3, b in I.apply_callable(s2, argv[1], [('ref', a, ())], depth, t):
+                for s4, val in fork_bool(I, s3, b):
+                    if val:
+                        _writeback(I, s4, argv[0], nit)
+                        yield s4, Some(item)
+                    else:
+                        yield from go(s4, nit)
+    yield from go(st, deref_val(st, argv[0]))
+
+
+@model('core::iter::traits::iterator::Iterator::find_map')
+def m_iter_find_map(I, st, callee, argv, depth, t, dty):
+    if not is_steppable(st, argv[0]):
+        st.ev('LOOPSUM', 'find_map over an opaque iterator', span(t))
+        I.notes.append('opaque iterator at ' + span(t))
+        yield st, App('find_map', freeze(st, argv[0]))
+        return
+    def go(s, it):
+        for s2, nit, item in iter_step(I, s, it, depth, t):
+            if item is None:
+                _writeback(I, s2, argv[0], nit)
+                yield s2, NONE
+                continue
+            for s3, y in I.apply_callable(s2, argv[1], [item], depth, t):
+                for s4, name, payload in I.fork_result(s3, y, 'Some', 'None'):
+                    if name == 'Some':
+                        _writeback(I, s4, argv[0], nit)
+                        yield s4, Some(payload)
+                    else:
+                        yield from go(s4, nit)
+    yield from go(st, deref_val(st, argv[0]))
+
+
+@model('core::iter::traits::iterator::Iterator::any', 'core::iter::traits::iterator::Iterator::all')
+def m_iter_any_all(I, st, callee, argv, depth, t, dty):
+    want = callee['name'] == 'any'
+    if not is_steppable(st, argv[0]):
+        st.ev('LOOPSUM', '%s over an opaque iterator' % callee['name'], span(t))
+        I.notes.append('opaque iterator at ' + span(t))
+        yield st, App(callee['name'], freeze(st, argv[0]))
+        return
+    def go(s, it):
+        for s2, nit, item in iter_step(I, s, it, depth, t):
+            if item is None:
+                yield s2, Int(0 if want else 1)
+                continue
+            for s3, b in I.apply_callable(s2, argv[1], [item], depth, t):
+                for s4, val in fork_bool(I, s3, b):
+                    if val == want:
+                        yield s4, Int(1 if want else 0)
+                    else:
+                        yield from go(s4, nit)
+    yield from go(st, deref_val(st, argv[0]))
+
+
+@model('core::iter::traits::iterator::Iterator::try_for_each')
+def m_iter_try_for_each(I, st, callee, argv, depth, t, dty):
+    if not is_steppable(st, argv[0]):
+        st.ev('LOOPSUM', 'try_for_each over an opaque iterator', span(t))
+        I.notes.append('opaque iterator at ' + span(t))
+        yield st, App('try_for_each', freeze(st, argv[0]))
+        return
+    ty = dty or ''
+    if 'ControlFlow' in ty:
+        adt, go_on, stop = CF, 'Continue', 'Break'
+    elif 'Option' in ty and 'Result' not in ty.split('<')[0]:
+        adt, go_on, stop = OPTION, 'Some', 'None'
+    else:
+        adt, go_on, stop = RESULT, 'Ok', 'Err'
+    def go(s, it):
+        for s2, nit, item in iter_step(I, s, it, depth, t):
+            if item is None:
+                _writeback(I, s2, argv[0], nit)
+                yield s2, mk(adt, go_on, UNIT)
+                continue
+            for s3, y in I.apply_callable(s2, argv[1], [item], depth, t):
+                for s4, name, payload in I.fork_result(s3, y, go_on, stop):
+                    if name == stop:
+                        _writeback(I, s4, argv[0], nit)
+                        yield s4, (mk(adt, stop, payload) if adt != OPTION else NONE)
+                    else:
+                        yield from go(s4, nit)
+    yield from go(st, deref_val(st, argv[0]))
+
+
+@model('core::option::Option::unwrap_or_else', 'core::result::Result::unwrap_or_else')
+def m_unwrap_or_else(I, st, callee, argv, depth, t, dty):
+    is_res = 'result::Result' in (callee.get('self_dpath') or callee.get('path') or '')
+    ok, err = ('Ok', 'Err') if is_res else ('Some', 'None')
+    for s2, name, payload in I.fork_result(st, argv[0], ok, err):
+        if name == ok:
+            yield s2, payload
+        else:
+            yield from I.apply_callable(s2, argv[1], ([payload] if is_res else []), depth, t)
+
+
+@model('core::option::Option::copied', 'core::option::Option::cloned', 'core::option::Option::as_ref', 'core::result::Result::as_ref',
+       'core::option::Option::as_mut', 'core::result::Result::as_mut', 'core::option::Option::as_deref', 'core::result::Result::copied',
+       'core::result::Result::cloned')
+def m_opt_view(I, st, callee, argv, depth, t, dty):
+    # a view / copy of a fallible value is the value (references are transparent in the term domain)
+    yield st, deref_val(st, argv[0])
+
+
+@model('core::slice::split_first')
+def m_split_first(I, st, callee, argv, depth, t, dty):
+    c = bytes_of(st, argv[0])
+    l = tlen(c)
+    L = I.len_of(st, argv[0])
+    if l == 0:
+        yield st, NONE
+        return
+    pair = ('tuple', (App('first', c), mk_slice(c, Int(1), L)))
+    if l is not None:
+        yield st, Some(pair)
+        return
+    for s2, name, payload in I.fork_result(st, App('nonempty', c), 'Some', 'None'):
+        yield s2, (Some(pair) if name == 'Some' else NONE)
+
+
+@model('core::iter::sources::once::once', 'core::iter::once', 'std::iter::once')
+def m_iter_once(I, st, callee, argv, depth, t, dty):
+    yield st, ('list', (argv[0],))
+
+
+@model('core::iter::sources::empty::empty', 'core::iter::empty', 'std::iter::empty')
+def m_iter_empty(I, st, callee, argv, depth, t, dty):
+    yield st, ('list', ())
+
+
+@model('typenum::marker_traits::Unsigned::to_usize', 'typenum::marker_traits::Unsigned::to_u64', 'typenum::marker_traits::Unsigned::to_u32',
+       'typenum::marker_traits::Unsigned::to_u16', 'typenum::marker_traits::Unsigned::to_u8')
+def m_typenum_to(I, st, callee, argv, depth, t, dty):
+    # the value of a type-level number (the extractor prints typenum types as U<n>)
+    for a in (callee.get('args') or []) + [callee.get('self_ty') or '']:
+        m = re.fullmatch(r'U(\d+)', a or '')
+        if m:
+            yield st, Int(int(m.group(1)))
+            return
+    yield st, App('to_usize', *[('unk', a) for a in (callee.get('args') or [])])
 
 
 @model('core::ops::bit::BitXorAssign::bitxor_assign')
